@@ -13,6 +13,8 @@ def run(tier, seed):
     from ..propbase import gen_universe
     gen_universe(rep, "vf.oracles:c02_stream", "vf.universe:gen_emph", tier, "MarkdownIt.parse/render", "same contract on delimiter-heavy inputs (emphasis/strikethrough pairing inside links)",
                  ["commonmark", "cm+table+strike"], "all concatenations of <= k pieces over {*, **, _, ~~, ~, a, space, [, ](x), b}", "delimiter universe")
+    from .c17 import add_cons
+    add_cons(rep, "C02")
     rep.explanation = (
         "Mixed. Deductive: StateBlock.push is inlined into every leaf block rule and the postconditions 'tokens appended are balanced, level == entry "
         "level + depth, nesting/type/tag as specified, block flag set, state.level restored' are discharged for the seven leaf rules. Bounded: the full "
